@@ -47,7 +47,8 @@ Inductive gcop :=
 | GCOp (o : cop)                                                        (* a log / head / re-observation as in EvmWatcherCase *)
 | GCLogLost (e : ev)                                                    (* a log whose block-time lookup failed *)
 | GCPollDead                                                            (* three failing polls in a row *)
-| GCRestart (ai : option Z) (asked : Z) (aset : option (list Z)).       (* Run re-entered; the answers to its initial fetch *)
+| GCRestart (ai : option Z) (asked : Z) (aset : option (list Z))        (* Run re-entered; the answers to its initial fetch *)
+| GCFetch (ai : option Z) (asked : Z) (aset : option (list Z)).         (* a fetch of the 15 s ticker goroutine *)
 
 (* operations of one harness step; messages taken from msgChan afterwards; keys of w.pending afterwards; sets taken from setChan
    afterwards; how often Run returned during the step *)
@@ -70,6 +71,8 @@ Definition gcstep (c : gcfg) (s : wstate) (o : gcop) : wstate * list (wout Z) * 
   | GCPollDead => let r := gstep c s (GPoll [None; None; None] (fun _ => mkAns None EOther)) in (fst r, snd r, true)
   | GCRestart ai asked aset =>
     let r := gstep c s (GRestart (ans_of_case ai asked aset) 0) in (fst r, snd r, asked_ok ai asked)
+  | GCFetch ai asked aset =>
+    let r := gstep c s (GFetch (ans_of_case ai asked aset)) in (fst r, snd r, asked_ok ai asked)
   end.
 
 Fixpoint gcops (c : gcfg) (s : wstate) (os : list gcop) : wstate * list (wout Z) * bool :=
